@@ -731,6 +731,61 @@ class Top(cohdl.Entity):
             self.par <<= parity(self.a, @W@ - 1)
 ''', tags=["concurrent", "select", "temporaries"], W=[2, 4])
 
+# ---- unnamed objects reachable under several names (the VHDL name is derived from the Python names)
+_d("alias_unnamed_closure", '''
+class Top(cohdl.Entity):
+    a = Port.input(BitVector[@W@])
+    y = Port.output(BitVector[@W@])
+    z = Port.output(BitVector[@W@])
+
+    def architecture(self):
+        zeta@N@ = Signal[BitVector[@W@]]()
+        first_alias = zeta@N@
+        second_alias = zeta@N@
+
+        @std.concurrent
+        def logic():
+            zeta@N@.next = self.a
+            self.y <<= first_alias
+            self.z <<= second_alias
+''', tags=["concurrent", "alias_unnamed"], W=[4, 2], N=["", "_q"])
+
+_d("alias_unnamed_mixed", '''
+class Holder:
+    def __init__(self, s):
+        self.held = s
+
+
+def combine(left_param, right_param, other):
+    return left_param ^ right_param ^ other
+
+
+class Top(cohdl.Entity):
+    clk = Port.input(Bit)
+    a = Port.input(BitVector[@W@])
+    y = Port.output(BitVector[@W@])
+    z = Port.output(BitVector[@W@])
+    w = Port.output(BitVector[@W@])
+
+    def architecture(self):
+        base = Signal[BitVector[@W@]]()
+        in_list = [base, base]
+        in_dict = {"k": base}
+        holder = Holder(base)
+        other_name = base
+        third_name = base
+        var_one = Variable[BitVector[@W@]](Null)
+        var_two = var_one
+
+        @std.sequential(std.Clock(self.clk))
+        def proc():
+            in_list[0].next = self.a
+            var_two.value = in_dict["k"] | third_name
+            self.y <<= holder.held
+            self.z <<= combine(other_name, in_list[1], var_one)
+            self.w <<= var_two
+''', tags=["sequential", "variable", "alias_unnamed"], W=[4, 3])
+
 # ---- modules with several tops that share classes (valid + valid, valid + rejected)
 _d("shared_sub_two_tops", '''
 class Stage(cohdl.Entity):
